@@ -404,45 +404,51 @@ def sendReq (s : Sess) (k : Kind) (id : ReqId) (m : OutMsg) (f : Option FutId) (
     let s := match f with | some f => s.unwatch f | none => s
     (if keep then s else s.setTbl k (adel id (s.tbl k)), [.send m, .raise_ .sendFailed])
 
+/-- what the six request APIs share once their preconditions hold: draw the next id, create the future, record the
+request under the id, hand the message to the transport, return the future -/
+def request (s : Sess) (k : Kind) (mkReq : FutId → Req) (mkMsg : ReqId → OutMsg) (keep : Bool) (snd : SendRes) :
+    Sess × List SOut :=
+  let id := s.drawId.2
+  let f := (s.drawId.1.newFut k).2
+  let s1 := (s.drawId.1.newFut k).1
+  sendReq (s1.setTbl k (aset id (mkReq f) (s1.tbl k))) k id (mkMsg id) (some f) keep snd
+
 def apiCall (s : Sess) (uri : Uri) (args : Args) (kwargs : Kwargs) (opts : Option CallOpts) (snd : SendRes) :
     Sess × List SOut :=
   if !s.transport then (s, [.raise_ .transportLost]) else
-  let (s, id) := s.drawId
-  let (s, f) := s.newFut .call
-  let m : OutMsg := { typ := .call, req := id, opts := optAttrs CallOpts.attrs opts, uri := uri, args := args, kwargs := kwargs }
-  let r : Req := { fut := f, hasOpts := opts.isSome, uri := uri, onProgress := opts.bind (·.onProgress), details := (opts.map (·.details)).getD false }
-  let s := s.setTbl .call (aset id r s.tCall)
-  sendReq s .call id m (some f) false snd
+  request s .call
+    (fun f => { fut := f, hasOpts := opts.isSome, uri := uri, onProgress := opts.bind (·.onProgress),
+                details := (opts.map (·.details)).getD false })
+    (fun id => { typ := .call, req := id, opts := optAttrs CallOpts.attrs opts, uri := uri, args := args, kwargs := kwargs })
+    false snd
 
 def apiPublish (s : Sess) (uri : Uri) (args : Args) (kwargs : Kwargs) (opts : Option PubOpts) (snd : SendRes) :
     Sess × List SOut :=
   if !s.transport then (s, [.raise_ .transportLost]) else
-  let (s, id) := s.drawId
-  let m : OutMsg := { typ := .publish, req := id, opts := optAttrs PubOpts.attrs opts, uri := uri, args := args, kwargs := kwargs }
   if (opts.bind (·.acknowledge)).getD false then
-    let (s, f) := s.newFut .publish
-    let s := s.setTbl .publish (aset id { fut := f } s.tPublish)
-    sendReq s .publish id m (some f) false snd
+    -- only acknowledged publications expect a reply
+    request s .publish (fun f => { fut := f })
+      (fun id => { typ := .publish, req := id, opts := optAttrs PubOpts.attrs opts, uri := uri, args := args, kwargs := kwargs })
+      false snd
   else
-    sendReq s .publish id m none false snd
+    let id := s.drawId.2
+    sendReq s.drawId.1 .publish id
+      { typ := .publish, req := id, opts := optAttrs PubOpts.attrs opts, uri := uri, args := args, kwargs := kwargs }
+      none false snd
 
 def apiSubscribe (s : Sess) (h : HId) (topic : Uri) (opts : Option SubOpts) (snd : SendRes) : Sess × List SOut :=
   if !s.transport then (s, [.raise_ .transportLost]) else
-  let (s, id) := s.drawId
-  let (s, f) := s.newFut .subscribe
-  let r : Req := { fut := f, uri := topic, handler := h, detailsArg := opts.bind (·.detailsArg) }
-  let s := s.setTbl .subscribe (aset id r s.tSubscribe)
-  let m : OutMsg := { typ := .subscribe, req := id, opts := optAttrs SubOpts.attrs opts, uri := topic }
-  sendReq s .subscribe id m (some f) true snd
+  request s .subscribe
+    (fun f => { fut := f, uri := topic, handler := h, detailsArg := opts.bind (·.detailsArg) })
+    (fun id => { typ := .subscribe, req := id, opts := optAttrs SubOpts.attrs opts, uri := topic })
+    true snd
 
 def apiRegister (s : Sess) (h : HId) (proc : Uri) (opts : Option RegOpts) (snd : SendRes) : Sess × List SOut :=
   if !s.transport then (s, [.raise_ .transportLost]) else
-  let (s, id) := s.drawId
-  let (s, f) := s.newFut .register
-  let r : Req := { fut := f, uri := proc, handler := h, detailsArg := opts.bind (·.detailsArg) }
-  let s := s.setTbl .register (aset id r s.tRegister)
-  let m : OutMsg := { typ := .register, req := id, opts := optAttrs RegOpts.attrs opts, uri := proc }
-  sendReq s .register id m (some f) true snd
+  request s .register
+    (fun f => { fut := f, uri := proc, handler := h, detailsArg := opts.bind (·.detailsArg) })
+    (fun id => { typ := .register, req := id, opts := optAttrs RegOpts.attrs opts, uri := proc })
+    true snd
 
 /-- the subscription id under which the (active) `Subscription` object `obj` is attached -/
 def findSub (obj : FutId) : List (SubId × List SubRec) → Option SubId
@@ -459,6 +465,11 @@ def aupd {β : Type} (k : Nat) (v : β) : List (Nat × β) → List (Nat × β)
   | [] => []
   | (k', v') :: r => if k' = k then (k, v) :: r else (k', v') :: aupd k v r
 
+/-- `txaio.create_future_success(v)` returned to the caller -/
+def futureSuccess (s : Sess) (k : Kind) (o : Outcome) : Sess × List SOut :=
+  let r := emitCb { s with futs := s.futs ++ [{ kind := k, cell := some o, count := 1 }] } (.callback s.futs.length o)
+  (r.1, [.complete s.futs.length o, .ret s.futs.length] ++ r.2)
+
 /-- `Subscription.unsubscribe()` → `_unsubscribe(subscription)` -/
 def apiUnsubscribe (s : Sess) (obj : FutId) (snd : SendRes) : Sess × List SOut :=
   match findSub obj s.subs with
@@ -469,17 +480,11 @@ def apiUnsubscribe (s : Sess) (obj : FutId) (snd : SendRes) : Sess × List SOut 
     let s := { s with subs := aupd sid l s.subs }
     if l.isEmpty then
       -- the last handler was removed: unsubscribe from the broker; the (empty) list stays until UNSUBSCRIBED
-      let (s, id) := s.drawId
-      let (s, f) := s.newFut .unsubscribe
-      let s := s.setTbl .unsubscribe (aset id { fut := f, target := sid } s.tUnsubscribe)
-      sendReq s .unsubscribe id { typ := .unsubscribe, req := id, uri := sid } (some f) true snd
+      request s .unsubscribe (fun f => { fut := f, target := sid })
+        (fun id => { typ := .unsubscribe, req := id, uri := sid }) true snd
     else
       -- `txaio.create_future_success(scount)`
-      let (s, f) := s.newFut .unsubscribe
-      let o := Outcome.value (.int l.length)
-      let s := { s with futs := s.futs.set f { kind := .unsubscribe, cell := some o, count := 1 } }
-      let r := emitCb s (.callback f o)
-      (r.1, [.complete f o, .ret f] ++ r.2)
+      futureSuccess s .unsubscribe (.value (.int l.length))
 
 def findReg (obj : FutId) : List (RegId × RegRec) → Option RegId
   | [] => none
@@ -491,35 +496,41 @@ def apiUnregister (s : Sess) (obj : FutId) (snd : SendRes) : Sess × List SOut :
   | none => (s, [.raise_ .exception])                 -- "registration no longer active"
   | some rid =>
     if !s.transport then (s, [.raise_ .transportLost]) else
-    let (s, id) := s.drawId
-    let (s, f) := s.newFut .unregister
-    let s := s.setTbl .unregister (aset id { fut := f, target := rid } s.tUnregister)
-    sendReq s .unregister id { typ := .unregister, req := id, uri := rid } (some f) true snd
+    request s .unregister (fun f => { fut := f, target := rid })
+      (fun id => { typ := .unregister, req := id, uri := rid }) true snd
 
 /-- the request id a pending call future is recorded under (the `request_id` closed over by `canceller`) -/
 def findFut (f : FutId) : Table → Option ReqId
   | [] => none
   | (id, r) :: rest => if r.fut = f then some id else findFut f rest
 
-/-- the user cancels a Deferred/Future obtained from an API call. Twisted: `Deferred.cancel()` runs the canceller
-(for `call`: send CANCEL) and then errbacks with `CancelledError`. asyncio: the future is cancelled at once, the
-canceller and the user's callbacks run at the next loop iteration. -/
+/-- what the canceller of a future of kind `k` sends: only `call` futures have one (`CANCEL(request_id)`) -/
+def cancelMsgs (s : Sess) (f : FutId) : Kind → List SOut
+  | .call => (match findFut f s.tCall with
+              | some id => [.send { typ := .cancel, req := id }]
+              | none => [])
+  | _ => []
+
+/-- Twisted: `Deferred.cancel()` runs the canceller and then errbacks with `CancelledError`. asyncio: the future
+is cancelled at once, the canceller and the user's callbacks run at the next loop iteration. -/
+def cancelDo (s : Sess) (f : FutId) (x : Fut) (msgs : List SOut) : Sess × List SOut :=
+  match s.mode with
+  | .sync =>
+    ({ s with futs := s.futs.set f { x with cell := some .cancelled, count := x.count + 1 } },
+     msgs ++ [.complete f .cancelled, .callback f .cancelled])
+  | .deferred =>
+    ({ s with futs := s.futs.set f { x with cell := some .cancelled, count := x.count + 1 },
+              cbq := s.cbq ++ msgs ++ [.callback f .cancelled] },
+     [.complete f .cancelled])
+
+/-- the user cancels a Deferred/Future obtained from an API call -/
 def apiCancel (s : Sess) (f : FutId) : Sess × List SOut :=
   match s.futs[f]? with
   | none => (s, [.unmodelled])
   | some x =>
     if x.cell.isSome then (s, []) else
-    let cancelMsg : List SOut :=
-      match x.kind with
-      | .call => (match findFut f s.tCall with
-                  | some id => [.send { typ := .cancel, req := id }]
-                  | none => [])
-      | _ => []
-    if cancelMsg ≠ [] && !s.transport then (s, [.unmodelled]) else
-    let s := { s with futs := s.futs.set f { x with cell := some .cancelled, count := x.count + 1 } }
-    match s.mode with
-    | .sync => (s, cancelMsg ++ [.complete f .cancelled, .callback f .cancelled])
-    | .deferred => ({ s with cbq := s.cbq ++ cancelMsg ++ [.callback f .cancelled] }, [.complete f .cancelled])
+    if !(cancelMsgs s f x.kind).isEmpty && !s.transport then (s, [.unmodelled]) else
+    cancelDo s f x (cancelMsgs s f x.kind)
 
 /-- STUB `join()` -/
 def apiJoin (s : Sess) : Sess × List SOut :=
